@@ -74,6 +74,9 @@ func GenScript(r *hx.Rand, kinds []string, nops int) []string {
 		script = append(script, fmt.Sprintf("obj 0 %s parent %s", insts[r.Intn(len(insts))], strings.Join(cs, ",")))
 		total++
 	}
+	if kind == "hier" && r.Chance(1, 8) {
+		return genTwoCopies(r, cfg, insts)
+	}
 	if kind != "ac" && r.Chance(1, 5) {
 		return genAging(r, script[:1], kind, insts, bm)
 	}
@@ -185,6 +188,58 @@ func genAging(r *hx.Rand, script []string, kind string, insts []string, bm bmx.C
 		}
 	}
 	touch()
+	return script
+}
+
+// genTwoCopies is a directed family for hierarchical stores: an object is uploaded under one instance name, ages into
+// an old block, is uploaded again under another name (a second copy: the canonical entry moves, the first lookup entry
+// stays), ages until both copies are old, and is then touched under the first name - twice in a row - and read again
+// after old_blocks further allocations. The geometry has a long tail of old blocks so that both copies can be old.
+func genTwoCopies(r *hx.Rand, cfg Config, insts []string) []string {
+	cfg.BM.Old, cfg.BM.Cur, cfg.BM.New = r.Range(3, 5), r.Range(0, 1), 1
+	cfg.BM.Spare = r.Range(1, 2)
+	cfg.Records, cfg.MaxGet, cfg.MaxPut = 61, 8, 16
+	bs := cfg.BM.BlockSize()
+	script := []string{cfg.Line()}
+	a := insts[r.Intn(len(insts))]
+	b := a
+	for b == a {
+		b = insts[r.Intn(len(insts))]
+	}
+	small := r.PickInt(1, 2, cfg.BM.Sector, bs/2)
+	if small > bs {
+		small = bs
+	}
+	script = append(script, fmt.Sprintf("obj %d %s", small, a), fmt.Sprintf("obj 0 %s alias 0", b)) // 0, 1
+	for i := 0; i < 3; i++ {
+		script = append(script, fmt.Sprintf("obj %d %s", bs, insts[r.Intn(len(insts))])) // 2..4: one block each
+	}
+	op := 0
+	put := func(o int) {
+		script = append(script, fmt.Sprintf("put %d %d 0 w none", op, o), fmt.Sprintf("run %d", op))
+		op++
+	}
+	fills := func(n int) {
+		for i := 0; i < n; i++ {
+			put(2 + r.Intn(3))
+		}
+	}
+	touch := func(o int) {
+		if r.Chance(1, 2) {
+			script = append(script, fmt.Sprintf("get %d", o))
+		} else {
+			script = append(script, fmt.Sprintf("fm %d", o))
+		}
+	}
+	put(0)
+	fills(cfg.BM.Cur + cfg.BM.New + r.Range(0, 1)) // the first copy becomes old
+	put(1)                                         // second copy under the other name
+	fills(cfg.BM.Cur + cfg.BM.New + r.Range(0, 1)) // the second copy becomes old too
+	touch(0)
+	touch(0)
+	fills(cfg.BM.Old)
+	touch(0)
+	touch(1)
 	return script
 }
 
